@@ -270,14 +270,33 @@ end matthm
 section expthm
 variable {R : Type} [Field R] {n : Nat}
 
-/-- C18 `exp_tp` (series form, `_partial`): if the first row of `L` vanishes, the first row of every
-partial sum `Σ_{k≤N} L^k/k!` is `e₀` — for all `N` and all sizes. The limit statement for `Matrix.exp`
-is not formalised; `to_gate` uses scipy's `expm`, tied to this series by the correspondence check, and
-complete positivity of `exp(L)` (Lindblad's theorem) is not proved at all. -/
-theorem exp_tp_partial (L : Mat R n n) (z : Fin n) (hL : ∀ j, L.get z j = 0) (N : Nat) (j : Fin n) :
+/-- C18 `exp_tp`, series form (any field, literally the executed instance `ℚ`): if the first row of `L`
+vanishes, the first row of every partial sum `Σ_{k≤N} L^k/k!` is `e₀` — for all `N` and all sizes. `to_gate`
+uses scipy's `expm`, tied to this series by the correspondence check; the limit statement is `exp_tp` below.
+Complete positivity of `exp(L)` (Lindblad's theorem) is not proved at all. -/
+theorem exp_series_tp (L : Mat R n n) (z : Fin n) (hL : ∀ j, L.get z j = 0) (N : Nat) (j : Fin n) :
     (expSeries L N).get z j = if z = j then 1 else 0 :=
   (expLoop_row0 L z hL N).2 j
 end expthm
+
+section expmathlib
+open NormedSpace
+open scoped Matrix.Norms.Operator
+
+/-- C18 `exp_tp`: for Mathlib's matrix exponential (`NormedSpace.exp`, the limit of the series): if the first
+row of the generator `L` vanishes then the first row of `exp L` is `e₀` — the gate obtained by exponentiating a
+trace-annihilating generator is trace preserving, in every dimension. (Proof: `e₀ᵀ Lᵏ = 0` for `k ≥ 1` and
+continuity of the entry functional applied to the exponential series.) -/
+theorem exp_tp {n : Nat} (L : Mat ℝ n n) (z : Fin n) (hL : ∀ j, L.get z j = 0) (j : Fin n) :
+    (exp L.toM) z j = if z = j then 1 else 0 :=
+  exp_row0 L.toM z (fun j => by simpa using hL j) j
+
+/-- the executed truncated series `expSeries L N` (the model's independent reference for `to_gate`) is the
+`N`-th partial sum of the series defining Mathlib's `exp L`. -/
+theorem expSeries_eq_partial_sum {n : Nat} (L : Mat ℝ n n) (N : Nat) :
+    (expSeries L N).toM = ∑ i ∈ Finset.range (N + 1), ((i.factorial : ℝ)⁻¹) • L.toM ^ i :=
+  (expLoop_toM L N).2
+end expmathlib
 
 
 /-! ## the hypotheses are satisfiable
